@@ -586,10 +586,171 @@ def _sink_raises(tree: ast.Module, log: List[str], path: str) -> None:
     ast.fix_missing_locations(tree)
 
 
+SLOT_RENAMES: Dict[str, str] = {}      # set per program by the loader (slot_renames)
+
+
+def slot_renames(files: Dict[str, str]) -> Dict[str, str]:
+    """The two private slots of a quantity are known to the rules by their pinned names (`_value`, `_defined_units`).  If
+    the class keeps them under other names - found as what the `raw_value` / `units` properties of AbstractDimension
+    return - every attribute of that name is read under the pinned name: an alpha-renaming of a private attribute, exact
+    as long as neither name is reached through a string (getattr / __dict__) and the pinned name is not in use for
+    something else; otherwise nothing is renamed."""
+    src = files.get('py_ballisticcalc/unit.py')
+    if src is None:
+        return {}
+    try:
+        tree = ast.parse(src)
+    except SyntaxError:
+        return {}
+    base = next((c for c in tree.body if isinstance(c, ast.ClassDef) and c.name == 'AbstractDimension'), None)
+    if base is None:
+        return {}
+    found: Dict[str, str] = {}
+    for m in base.body:
+        if isinstance(m, ast.FunctionDef) and m.name in ('raw_value', 'units') and m.args.args:
+            rets = [r for r in ast.walk(m) if isinstance(r, ast.Return)]
+            me = m.args.args[0].arg
+            if len(rets) == 1 and isinstance(rets[0].value, ast.Attribute) and isinstance(rets[0].value.value, ast.Name) \
+                    and rets[0].value.value.id == me:
+                found[m.name] = rets[0].value.attr
+    ren = {}
+    if found.get('raw_value') not in (None, '_value'):
+        ren[found['raw_value']] = '_value'
+    if found.get('units') not in (None, '_defined_units'):
+        ren[found['units']] = '_defined_units'
+    if not ren:
+        return {}
+    for path, text in files.items():
+        if not path.endswith('.py'):
+            continue
+        try:
+            t = ast.parse(text)
+        except SyntaxError:
+            continue
+        in_slots = set()
+        for a in ast.walk(t):
+            if isinstance(a, ast.Assign) and any(isinstance(x, ast.Name) and x.id == '__slots__' for x in a.targets):
+                in_slots |= {id(c) for c in ast.walk(a.value)}
+        for n in ast.walk(t):
+            if isinstance(n, ast.Attribute) and n.attr in ren.values() and n.attr not in ren:
+                return {}       # the pinned name is in use as well
+            if isinstance(n, ast.Constant) and isinstance(n.value, str) and (n.value in ren or n.value in ren.values()) \
+                    and id(n) not in in_slots:
+                return {}       # reached through a string somewhere
+    return ren
+
+
+def _apply_slot_renames(tree: ast.Module, log: List[str], path: str) -> None:
+    if not SLOT_RENAMES:
+        return
+    k = 0
+    for n in ast.walk(tree):
+        if isinstance(n, ast.Attribute) and n.attr in SLOT_RENAMES:
+            n.attr = SLOT_RENAMES[n.attr]
+            k += 1
+        elif isinstance(n, ast.Assign) and any(isinstance(x, ast.Name) and x.id == '__slots__' for x in n.targets):
+            for c in ast.walk(n.value):
+                if isinstance(c, ast.Constant) and c.value in SLOT_RENAMES:
+                    c.value = SLOT_RENAMES[c.value]
+                    k += 1
+    if k:
+        log.append(f'{path}: {k} use(s) of the quantity slots read under their pinned names {SLOT_RENAMES}')
+
+
+def _expand_module_attrgetters(tree: ast.Module, log: List[str], path: str) -> None:
+    """`G = attrgetter('a', 'b.c')` bound once at module level and never rebound; `G(x)` with x a name or an attribute
+    chain of names (evaluating it several times is harmless) reads `(x.a, x.b.c)`, with one name `x.a`.  A tuple target
+    `p, q = G(x)` then reads as two plain assignments for every rule.  New module-level names only."""
+    getter_names = {'attrgetter'}
+    for st in tree.body:
+        if isinstance(st, ast.ImportFrom) and st.module == 'operator':
+            getter_names |= {a.asname or a.name for a in st.names if a.name == 'attrgetter'}
+    table: Dict[str, List[str]] = {}
+    stores: Dict[str, int] = {}
+    for n in ast.walk(tree):
+        if isinstance(n, ast.Name) and isinstance(n.ctx, ast.Store):
+            stores[n.id] = stores.get(n.id, 0) + 1
+    for st in tree.body:
+        if isinstance(st, ast.Assign) and len(st.targets) == 1 and isinstance(st.targets[0], ast.Name) \
+                and isinstance(st.value, ast.Call) and not st.value.keywords and st.value.args \
+                and (dotted_name(st.value.func) in getter_names or dotted_name(st.value.func) == 'operator.attrgetter') \
+                and all(isinstance(a, ast.Constant) and isinstance(a.value, str)
+                        and all(p_.isidentifier() for p_ in a.value.split('.')) for a in st.value.args) \
+                and stores.get(st.targets[0].id) == 1:
+            table[st.targets[0].id] = [a.value for a in st.value.args]
+    if not table:
+        return
+
+    def pure(e) -> bool:
+        return isinstance(e, ast.Name) or (isinstance(e, ast.Attribute) and pure(e.value))
+
+    class V(ast.NodeTransformer):
+        def visit_Call(self, node):
+            self.generic_visit(node)
+            if isinstance(node.func, ast.Name) and node.func.id in table and len(node.args) == 1 and not node.keywords \
+                    and pure(node.args[0]):
+                def chain(path_):
+                    e = copy.deepcopy(node.args[0])
+                    for part in path_.split('.'):
+                        e = ast.Attribute(value=e, attr=part, ctx=ast.Load())
+                    return e
+                names = table[node.func.id]
+                new = chain(names[0]) if len(names) == 1 else ast.Tuple(elts=[chain(n_) for n_ in names], ctx=ast.Load())
+                if len(names) > 1:
+                    new._from_getter = True
+                log.append(f'{path}:{node.lineno} {node.func.id}(...) read as the attribute(s) {names}')
+                return ast.copy_location(new, node)
+            return node
+    V().visit(tree)
+
+    # a, b = (x.p, x.q) produced above: written as a = x.p; b = x.q when no target is read on the right-hand side
+    class W(ast.NodeTransformer):
+        def _block(self, stmts):
+            out = []
+            for st in stmts:
+                st = self.visit(st)
+                if isinstance(st, ast.Assign) and len(st.targets) == 1 and isinstance(st.targets[0], ast.Tuple) \
+                        and isinstance(st.value, ast.Tuple) and len(st.targets[0].elts) == len(st.value.elts) \
+                        and all(isinstance(t_, ast.Name) for t_ in st.targets[0].elts) \
+                        and getattr(st.value, '_from_getter', False):
+                    tnames = {t_.id for t_ in st.targets[0].elts}
+                    if not any(isinstance(x, ast.Name) and x.id in tnames for v_ in st.value.elts for x in ast.walk(v_)):
+                        for t_, v_ in zip(st.targets[0].elts, st.value.elts):
+                            out.append(ast.copy_location(ast.Assign(targets=[ast.Name(id=t_.id, ctx=ast.Store())], value=v_), st))
+                        continue
+                out.append(st)
+            return out
+
+        def generic_visit(self, node):
+            for fld in ('body', 'orelse', 'finalbody'):
+                sub = getattr(node, fld, None)
+                if isinstance(sub, list) and sub and isinstance(sub[0], ast.stmt):
+                    setattr(node, fld, self._block(sub))
+            if isinstance(node, ast.Try):
+                for hd in node.handlers:
+                    hd.body = self._block(hd.body)
+            return node
+    W().visit(tree)
+    ast.fix_missing_locations(tree)
+
+
+def dotted_name(e) -> str:
+    if isinstance(e, ast.Name):
+        return e.id
+    if isinstance(e, ast.Attribute):
+        b = dotted_name(e.value)
+        return f'{b}.{e.attr}' if b else ''
+    return ''
+
+
 def normalise(tree: ast.Module, path: str) -> Tuple[ast.Module, List[str]]:
     if not KNOWN or not path.endswith('.py'):
         return tree, []
+    pre_log: List[str] = []
+    _apply_slot_renames(tree, pre_log, path)
+    _expand_module_attrgetters(tree, pre_log, path)
     inl = _Inliner(tree, path)
+    inl.log.extend(pre_log)
     try:
         out = inl.run()
         _sink_raises(out, inl.log, path)
